@@ -258,9 +258,9 @@ func longHistories(c *seq.Ctx) {
 // returned hash (each character replaced by its other-case form, by a neighbouring digit, removed,
 // or doubled), the whole-string case/blank/prefix/suffix variants, and the hash of the other pair,
 // each tried with the RIGHT code on a fresh logic (so the attempt limit does not decide).
-func hashNearMisses(c *seq.Ctx) {
-	for _, mock := range []bool{true, false} {
-		for _, codeLen := range []int{4, 6} {
+func hashNearMisses(c *seq.Ctx, mocks []bool, codeLens []int) {
+	for _, mock := range mocks {
+		for _, codeLen := range codeLens {
 			cf := cfg{codeLen, 2, 2, true, false, true, mock}
 			probe := func(variant func(h, other string) string, what string) {
 				cp := &capture{last: map[pair]string{}}
@@ -304,6 +304,72 @@ func hashNearMisses(c *seq.Ctx) {
 			}
 			for what, f := range whole {
 				probe(f, what)
+			}
+			// the same for the code: near-misses of the sent code with the RIGHT hash
+			codeProbe := func(variant func(code string) string, what string) {
+				cp := &capture{last: map[pair]string{}}
+				l := vcode.NewSimpleLogic(cf.config(), cp, nil)
+				p := pairs[0]
+				hash, err := l.SendSMSCode(p.area, p.phone)
+				if err != nil {
+					c.Case("code/send", "first send refused: "+err.Error(), "first send refused", func() interface{} { return what })
+					return
+				}
+				code := mockCode(p.phone, codeLen)
+				if !mock {
+					code = cp.last[p]
+				}
+				v := variant(code)
+				bad := ""
+				if v != code && l.VerifySMSCode(p.area, p.phone, v, hash) == nil {
+					bad = fmt.Sprintf("code %q verified although the code sent was %q (%s)", v, code, what)
+				}
+				if bad == "" {
+					if e := l.VerifySMSCode(p.area, p.phone, code, hash); e != nil {
+						bad = fmt.Sprintf("after one refused near-miss code (%s) the right code and hash are rejected on attempt 2 of 2: %v", what, e)
+					}
+				}
+				c.Case(fmt.Sprintf("code-near-miss/%v", bad == ""), bad, "a code other than the one sent verifies", func() interface{} { return fmt.Sprintf("mock=%v len=%d %s", mock, codeLen, what) })
+			}
+			fullwidth := func(code string) string {
+				out := ""
+				for _, ch := range code {
+					if ch >= '0' && ch <= '9' {
+						out += string(rune(0xFF10 + ch - '0'))
+					} else {
+						out += string(ch)
+					}
+				}
+				return out
+			}
+			for what, f := range map[string]func(string) string{
+				"empty": func(c string) string { return "" }, "trailing blank": func(c string) string { return c + " " }, "leading blank": func(c string) string { return " " + c },
+				"trailing newline": func(c string) string { return c + "\n" }, "plus sign": func(c string) string { return "+" + c }, "leading zero added": func(c string) string { return "0" + c },
+				"leading zeros stripped": func(c string) string { return strings.TrimLeft(c, "0") }, "trailing zero added": func(c string) string { return c + "0" }, "decimal point": func(c string) string { return c + ".0" },
+				"last digit dropped": func(c string) string { return c[:len(c)-1] }, "first digit dropped": func(c string) string { return c[1:] }, "doubled": func(c string) string { return c + c },
+				"full-width digits": fullwidth, "trailing NUL": func(c string) string { return c + "\x00" }, "reversed": func(c string) string {
+					b := []byte(c)
+					for i, j := 0, len(b)-1; i < j; i, j = i+1, j-1 {
+						b[i], b[j] = b[j], b[i]
+					}
+					return string(b)
+				},
+			} {
+				codeProbe(f, what)
+			}
+			for pos := 0; pos < codeLen; pos++ {
+				pos := pos
+				for d := byte(1); d <= 9; d++ {
+					d := d
+					codeProbe(func(c string) string {
+						if pos >= len(c) || c[pos] < '0' || c[pos] > '9' {
+							return c
+						}
+						b := []byte(c)
+						b[pos] = '0' + (b[pos]-'0'+d)%10
+						return string(b)
+					}, fmt.Sprintf("digit %d advanced by %d", pos, d))
+				}
 			}
 			for pos := 0; pos < 40; pos++ {
 				pos := pos
@@ -480,7 +546,7 @@ func nonce(c *seq.Ctx) {
 
 func main() {
 	r := ev.Start("C19")
-	r.Rule("for every configuration (code length 4/6 x attempt limit 1/2 x send limit 1/2 x lifetime valid/expired x interval never/always-too-frequent x window never/always refreshed x mock on/off, clock frozen) every sequence of Send / Verify(right|wrong code x right|wrong hash) / Verify with the other pair's credentials over two (area, phone) pairs up to the stated depth on the real logic with a capturing SMS sender, against a per-pair reference (code, hash, attempts, sends); a second pair set whose plain concatenations collide (1,23)/(12,3); a small-cache family (record cache of 1-3 entries, one destination more than entries, sequences of sends and right/wrong verifies: a sent code stays verifiable until CacheSize other destinations were used); the nonce generator driven with every index answer; a hash family (every single-character case/bit/removal/doubling variant and the whole-string case, blank, prefix, suffix, dashed and other-pair variants of the handed-out hash, each with the right code on a fresh logic: refused, and the true hash still verifies afterwards); distinct = (op, answer) pairs")
+	r.Rule("for every configuration (code length 4/6 x attempt limit 1/2 x send limit 1/2 x lifetime valid/expired x interval never/always-too-frequent x window never/always refreshed x mock on/off, clock frozen) every sequence of Send / Verify(right|wrong code x right|wrong hash) / Verify with the other pair's credentials over two (area, phone) pairs up to the stated depth on the real logic with a capturing SMS sender, against a per-pair reference (code, hash, attempts, sends); a second pair set whose plain concatenations collide (1,23)/(12,3); a small-cache family (record cache of 1-3 entries, one destination more than entries, sequences of sends and right/wrong verifies: a sent code stays verifiable until CacheSize other destinations were used); the nonce generator driven with every index answer; a hash family (every single-character case/bit/removal/doubling variant and the whole-string case, blank, prefix, suffix, dashed and other-pair variants of the handed-out hash, each with the right code on a fresh logic: refused, and the true hash still verifies afterwards) and the same for the code (every digit replaced by each other digit, blank/sign/zero/NUL/full-width/truncated/doubled/reversed forms with the right hash); distinct = (op, answer) pairs")
 	r.Assume("time.Now in vcode/vlogic.go is redirected to a frozen virtual clock (regimes decide every comparison)", "the send-count clause is checked as: sends <= MaxCount accepted, sends > MaxCount+1 refused")
 	vtime.NowFn = func() time.Time { return time.Unix(1700000000, 0) }
 	var jobs []func()
@@ -541,7 +607,14 @@ func main() {
 	}
 	jobs = append(jobs, func() { seq.RunFamily(r, seq.Family{Name: "nonce", Run: nonce}) })
 	jobs = append(jobs, func() { seq.RunFamily(r, seq.Family{Name: "long-attempt-histories", Run: longHistories}) })
-	jobs = append(jobs, func() { seq.RunFamily(r, seq.Family{Name: "hash-near-misses", Run: hashNearMisses}) })
+	for _, mock := range []bool{true, false} {
+		for _, codeLen := range []int{4, 6} {
+			mock, codeLen := mock, codeLen
+			jobs = append(jobs, func() {
+				seq.RunFamily(r, seq.Family{Name: fmt.Sprintf("hash-and-code-near-misses/mock=%v/len=%d", mock, codeLen), Run: func(c *seq.Ctx) { hashNearMisses(c, []bool{mock}, []int{codeLen}) }})
+			})
+		}
+	}
 	seq.Parallel(16, jobs)
 	r.Finish()
 }
